@@ -29,7 +29,7 @@ TO_ONE = {
 }
 # rel key -> (target model, fk column on the target row pointing back)
 TO_MANY = {
-    "Author": {"posts": ("Post", "author_id"), "written": ("Comment", "writer_id")},
+    "Author": {"posts": ("Post", "author_id"), "comments": ("Comment", "writer_id")},
     "Post": {"comments": ("Comment", "post_id")},
     "Comment": {},
 }
@@ -39,7 +39,7 @@ BODIES = ["nice", "cool", "meh", "wow"]
 STR_VALUES = {"name": NAMES, "title": TITLES, "body": BODIES}
 OPS = {"eq": lambda a, b: a == b, "ne": lambda a, b: a != b, "lt": lambda a, b: a < b,
        "le": lambda a, b: a <= b, "gt": lambda a, b: a > b, "ge": lambda a, b: a >= b}
-LVAR = {"posts": "p", "comments": "c", "written": "w"}
+LVAR = {"posts": "p", "comments": "c"}
 
 
 # ---------------------------------------------------------------- generation
